@@ -63,6 +63,8 @@ def ref_rqs(xk, yk, d, lo, hi, x):
 def ref_planar(w, u0, b, ns, x):
     wtu = float(u0 @ w)
     m = -1.0 + math.log(1.0 + ref_softplus(wtu))  # the constraint as flowjax documents it in get_act_scale
+    if ns is not None:
+        m = m / max(1.0, ns)  # leaky relu: both slopes need 1 + slope * w.u > 0
     u = u0 + (m - wtu) * w / float(w @ w)
     z = float(w @ x + b)
     act = math.tanh(z) if ns is None else (z if z >= 0 else ns * z)
@@ -109,7 +111,7 @@ def _ctor_cases(rng, quick):
         out.append(("AdditiveCondition", lambda Wm=Wm, bm=bm: B.AdditiveCondition(lambda c: jnp.asarray(Wm) @ c + jnp.asarray(bm), (3,), (2,)),
                     lambda x, c, Wm=Wm, bm=bm: x + (Wm @ c + bm), (3,), (2,), dict(W=Wm.tolist(), b=bm.tolist())))
         for d in (1, 2, 4):
-            for ns in (None, 0.3):
+            for ns in (None, 0.3, 2.5):
                 p = rng.normal(0, 1.0, 2 * d + 1)
                 out.append((f"Planar(dim={d},negative_slope={ns})", lambda d=d, ns=ns, p=p: eqx.tree_at(lambda o: o.params, B.Planar(jr.PRNGKey(0), dim=d, negative_slope=ns), jnp.asarray(p)),
                             lambda x, d=d, ns=ns, p=p: ref_planar(p[:d], p[d:2 * d], p[-1], ns, x), (d,), None, dict(params=p.tolist(), negative_slope=ns)))
